@@ -75,6 +75,24 @@ def main(argv=None) -> int:
         # typestate of one-shot iterators in the code the rules looked at (rules/oneshot.py)
         from .rules import oneshot
         rep.extra["oneshot_functions"] = oneshot.check(project, rep)
+        # the evaluator itself against CPython on its corpus of micro-programs (selftest/conformance): a run the evaluator calls
+        # exact must give Python's value; a disagreement means verdicts that rest on evaluation cannot be trusted
+        from .selftest.conformance.run import run as _conformance
+        cf = _conformance()
+        rep.extra["evaluator_conformance"] = {"agree": len(cf["agree"]), "inexact_no_claim": len(cf["inexact"]),
+                                              "differ_by_stated_assumption": [n_ for n_, _ in cf.get("assumed", [])],
+                                              "disagree": [n_ for n_, _, _ in cf["DISAGREE"]]}
+        for n_, got_, want_ in cf["DISAGREE"]:
+            rep.errors.append(f"EVALUATOR-CONFORMANCE case {n_}: the evaluator computes {got_!r}, Python {want_!r}"[:300])
+        # ... and its SUMMARIES (loops over symbolic lengths, masks, slices, reductions, block matrices): each program of
+        # confpkg/symcases.py evaluated once on generic inputs, the derived closed form compared with Python on random arrays
+        from .selftest.conformance.symrun import run as _summaries
+        sf = _summaries(trials=6)
+        rep.extra["evaluator_summaries"] = {"agree": len(sf["agree"]), "abstract_or_inexact_no_claim": len(sf["inexact"]),
+                                            "disagree": [x[0] for x in sf["DISAGREE"]]}
+        for x in sf["DISAGREE"]:
+            rep.errors.append(f"EVALUATOR-CONFORMANCE summary {x[0]} (sizes {x[3]}): the derived value gives {str(x[1])[:80]}, "
+                              f"Python {str(x[2])[:80]}")
         if args.tier == "thorough" and not args.dry:
             from .selftest.run import neutral_run, seeded_runs, sensitivity
             sr = seeded_runs(pid, project.repo)
